@@ -124,6 +124,12 @@ func runC18(ctx *core.Ctx) {
 		segs[parts[len(parts)-1]] = true
 		segs[parts[0]] = true
 		unknown = append(unknown, p+"x", "x"+p, p+"-", "-"+p, p[:len(p)-1], strings.ToUpper(p[:1])+p[1:])
+		// logical / directional / sub-property suffixes of documented names are not documented names
+		for _, sf := range []string{"-start", "-end", "-inline", "-block", "-inline-start", "-block-end", "-top", "-left", "-x", "-y", "-color", "-width", "-style", "-image", "-size"} {
+			if !known[p+sf] {
+				unknown = append(unknown, p+sf)
+			}
+		}
 		if !strings.HasPrefix(p, "-") {
 			// vendor-prefixed spellings of documented names are not documented names
 			for _, vp := range []string{"-webkit-", "-moz-", "-ms-", "-o-", "-khtml-", "mso-", "-WEBKIT-"} {
